@@ -162,7 +162,12 @@ def project_real(world, bind):
             if k == "closed" and cl.mode == "deferred":
                 continue
             if k == "message":
-                ev.append([k, v.decode("utf-8", "replace")])
+                # the schedule's name of the message (m:<sender>:<k>) if some wormhole of this world sent exactly these bytes
+                label = None
+                for other in world.clients.values():
+                    if other is not cl and v in other.sent:
+                        label = "m:%s:%d" % (other.name, other.sent.index(v))
+                ev.append([k, label if label is not None else v.decode("utf-8", "replace")])
             elif k == "code":
                 ev.append([k, bind.code_class(v)])
             elif k == "closed":
